@@ -163,6 +163,10 @@ def format_trivia(trivia_list: list[Any], indent: int = 0) -> str:
     indent_str = " " * indent if indent else ""
     for index, item in enumerate(trivia_list):
         if item is empty_line:
+            if index and trivia_list[index - 1] is empty_line:
+                # Trivia merged by an edit (a pruned let layer hands its blank
+                # line to the body) can hold two in a row; a parse never does.
+                continue
             parts.append("\n")
             ends_with_newline = True
         elif item is linebreak:
